@@ -53,6 +53,12 @@ CLAIMS = {
             'All well-formed skeletons up to the stated size x 3 syntaxes must produce exactly one line per element at its depth '
             '(reference line writer over the same reference tree as C01, so the tree equals the HTML tree by construction); '
             'id/class/attribute/text/multi-line layouts are checked for every indent string of spaces/tabs within the bound.', '§3 C15'),
+    'C09': ('bounded symbolic execution (CrossHair/z3) of the real HTML matcher on documents assembled from solver-chosen events with '
+            'recorded ground truth, symbolic integer position; symbolic content holes',
+            'Every well-formed document of up to K events (open, open+attributes, close, void, self-closed, comment/CDATA/PI/text, '
+            'script/style) x every integer position: match() is the innermost strictly enclosing element with exact open/close/'
+            'attribute ranges, balanced_outward lists all enclosing elements, balanced_inward the first-child chain; comment, CDATA, '
+            'PI, script and attribute-value contents of up to n free characters never contribute or move tags.', '§3 C09'),
     'C11': ('bounded symbolic execution (CrossHair/z3) of the real extract_abbreviation over all short lines x all integer carets x '
             'option sets, plus templates with concrete valid abbreviations and symbolic left/right context',
             'Consistency clauses: path tree of the real extractor exhausted for every ASCII line up to the stated length, every '
